@@ -244,8 +244,9 @@ def solve_obligation(ob: Obligation, rlimit, model_vars):
                 ob.model = {"_error": repr(exc)}
             break
         ob.reason = f"z3 unknown: {s.reason_unknown()}"
-    if verdict == "undecided" and ob.kind != "canary":
-        for bound in FM_BOUNDS:
+    if verdict == "undecided":
+        # (for the canary a model of the path condition found here shows non-vacuity; it needs no replay)
+        for bound in (FM_BOUNDS if ob.kind != "canary" else FM_BOUNDS[:2] + (8,)):
             try:
                 m = finite_model_search(ob, bound, model_vars)
             except Exception as exc:  # pragma: no cover
